@@ -250,6 +250,8 @@ class ScipyMinimizerImpl(
 
         if func_args is None:
             func_args = tuple()
+        # scipy takes a non-tuple sequence of arguments as one single argument.
+        func_args = tuple(func_args)
         if kwargs is None:
             kwargs = {}
 
@@ -431,6 +433,8 @@ class LBFGSMinimizerImpl(
         """
         if func_args is None:
             func_args = tuple()
+        # scipy takes a non-tuple sequence of arguments as one single argument.
+        func_args = tuple(func_args)
         if kwargs is None:
             kwargs = {}
 
